@@ -20,6 +20,20 @@ type FC struct {
 	name string
 	ab   [][2]string
 	ifs  []ifInfo
+	// virtual body: the NEW helper functions (knownFuncs) reachable from fn through static
+	// calls, each with its parameters bound to the argument terms in fn's frame
+	vsites []*vsite
+	vof    map[*ssa.Function][]*vsite
+}
+
+// vsite is one call of a new helper in the virtual body of a rule context.
+type vsite struct {
+	call   *ssa.Call // the call instruction (in fn or in an enclosing helper)
+	anchor *ssa.Call // the call instruction in fn through which the helper runs
+	h      *ssa.Function
+	hx     *TX
+	env    []*Term // helper parameters -> terms in fn's frame
+	depth  int
 }
 
 // fc builds a rule context. ab is an ordered list of (abbreviation, full term)
@@ -31,11 +45,192 @@ func (p *Prog) fc(r *Report, fn *ssa.Function, label string, ab [][2]string) *FC
 		return nil
 	}
 	c.x = p.tx(fn)
+	c.buildVirtualBody()
+	spliced := map[*ssa.Function]bool{}
 	for _, ii := range p.ifs(fn) {
+		if ii.site != nil {
+			spliced[ii.site.H] = true
+		}
 		ii.atom.Key = c.sh(ii.atom.Key)
 		c.ifs = append(c.ifs, ii)
 	}
+	// branches of helpers that are not walked through (procedures, value helpers): listed so
+	// that rules can see their atoms; their edges lie outside the walked graph, so matching
+	// one never cuts anything
+	for _, vs := range c.vsites {
+		if spliced[vs.h] {
+			continue
+		}
+		for _, hb := range vs.h.Blocks {
+			if len(hb.Instrs) == 0 {
+				continue
+			}
+			if iff, ok := hb.Instrs[len(hb.Instrs)-1].(*ssa.If); ok {
+				t := substTerm(markHelperCounters(vs.hx.Of(iff.Cond, iff)), vs.env)
+				a := atomOfTerm(t)
+				a.Key = c.sh(a.Key)
+				c.ifs = append(c.ifs, ifInfo{in: iff, atom: a, site: offGraph})
+			}
+		}
+	}
 	return c
+}
+
+// offGraph marks branches that belong to a helper the cut engine does not walk through.
+var offGraph = &spliceSite{}
+
+func (c *FC) buildVirtualBody() {
+	c.vof = map[*ssa.Function][]*vsite{}
+	var walk func(fn *ssa.Function, x *TX, env []*Term, anchor *ssa.Call, depth int, stack map[*ssa.Function]bool)
+	walk = func(fn *ssa.Function, x *TX, env []*Term, anchor *ssa.Call, depth int, stack map[*ssa.Function]bool) {
+		for _, b := range fn.Blocks {
+			for _, in := range b.Instrs {
+				call, ok := in.(*ssa.Call)
+				if !ok {
+					continue
+				}
+				h := call.Call.StaticCallee()
+				if !c.p.newHelper(h) || stack[h] || depth >= 3 {
+					continue
+				}
+				hx := c.p.tx(h)
+				var henv []*Term
+				for _, a := range call.Call.Args {
+					t := x.Of(a, call)
+					if env != nil {
+						t = substTerm(t, env)
+					}
+					henv = append(henv, t)
+				}
+				an := anchor
+				if an == nil {
+					an = call
+				}
+				vs := &vsite{call: call, anchor: an, h: h, hx: hx, env: henv, depth: depth + 1}
+				c.vsites = append(c.vsites, vs)
+				c.vof[h] = append(c.vof[h], vs)
+				stack[h] = true
+				walk(h, hx, henv, an, depth+1, stack)
+				delete(stack, h)
+			}
+		}
+	}
+	walk(c.fn, c.x, nil, nil, 0, map[*ssa.Function]bool{c.fn: true})
+}
+
+// termAt is the term of v at instruction at, in fn's frame, wherever at lives in the
+// virtual body. A helper used at several sites with different arguments yields an
+// undecided term.
+func (c *FC) termAt(v ssa.Value, at ssa.Instruction) *Term {
+	owner := at.Parent()
+	if owner == c.fn || owner == nil {
+		return c.x.Of(v, at)
+	}
+	sites := c.vof[owner]
+	if len(sites) == 0 {
+		// closures of fn etc.
+		return c.p.tx(owner).Of(v, at)
+	}
+	var res *Term
+	for _, vs := range sites {
+		t := substTerm(markHelperCounters(vs.hx.Of(v, at)), vs.env)
+		if res == nil {
+			res = t
+		} else if res.String() != t.String() {
+			return unknown(fmt.Sprintf("helper %s is used at %d sites with different arguments", funcName(owner), len(sites)))
+		}
+	}
+	return res
+}
+
+// anchorOf maps an instruction of the virtual body to the instruction whose reachability
+// in fn's (spliced) graph stands for it: itself in fn or in a walked-through helper, else
+// the call in fn through which its helper runs.
+func (c *FC) anchorOf(in ssa.Instruction) ssa.Instruction {
+	owner := in.Parent()
+	if owner == c.fn || owner == nil {
+		return in
+	}
+	for _, sp := range c.p.splices(c.fn) {
+		if sp.H == owner {
+			return in
+		}
+	}
+	if sites := c.vof[owner]; len(sites) > 0 {
+		return sites[0].anchor
+	}
+	return in
+}
+
+func (c *FC) anchors(ins []ssa.Instruction) []ssa.Instruction {
+	var out []ssa.Instruction
+	seen := map[ssa.Instruction]bool{}
+	for _, in := range ins {
+		owner := in.Parent()
+		if owner != c.fn && owner != nil && len(c.vof[owner]) > 1 {
+			// a helper used at several sites: every site stands for the instruction
+			for _, vs := range c.vof[owner] {
+				if !seen[vs.anchor] {
+					seen[vs.anchor] = true
+					out = append(out, vs.anchor)
+				}
+			}
+			continue
+		}
+		a := c.anchorOf(in)
+		if !seen[a] {
+			seen[a] = true
+			out = append(out, a)
+		}
+	}
+	return out
+}
+
+// viaAnchors: like anchors, for must-pass obligations: an instruction inside a helper
+// stands for "the call executes it" only if every normal return of each enclosing helper
+// lies behind it.
+func (c *FC) viaAnchors(ins []ssa.Instruction) []ssa.Instruction {
+	var out []ssa.Instruction
+	for _, in := range ins {
+		owner := in.Parent()
+		if owner == c.fn || owner == nil {
+			out = append(out, in)
+			continue
+		}
+		sites := c.vof[owner]
+		if len(sites) == 0 {
+			continue
+		}
+		ok := true
+		cur := in
+		for _, vs := range sites[:1] {
+			// climb from the innermost helper to fn
+			for level := vs; level != nil; {
+				fi := c.p.info(level.h)
+				hx := level.hx
+				for _, r := range allReturns(level.h) {
+					if c.p.exitKind(hx, r) == "error" {
+						continue
+					}
+					if fi.entryReachesAvoiding(r, []ssa.Instruction{cur}) {
+						ok = false
+					}
+				}
+				cur = level.call
+				var up *vsite
+				if level.call.Parent() != c.fn {
+					if ups := c.vof[level.call.Parent()]; len(ups) > 0 {
+						up = ups[0]
+					}
+				}
+				level = up
+			}
+		}
+		if ok {
+			out = append(out, sites[0].anchor)
+		}
+	}
+	return out
 }
 
 func (c *FC) sh(s string) string {
@@ -100,13 +295,16 @@ func replaceBalanced(s, prefix, suffix, name string) string {
 }
 
 func (c *FC) term(v ssa.Value, at ssa.Instruction) string {
-	return c.sh(c.x.Of(v, at).String())
+	return c.sh(c.termAt(v, at).String())
 }
 
 func (c *FC) pos() string { return c.p.pos(c.fn.Pos()) }
 
 // callName gives the printed name of a call's callee as it appears in terms.
 func (c *FC) callName(call *ssa.Call) string {
+	if owner := call.Parent(); owner != c.fn && owner != nil {
+		return c.sh(callNameOf(c.p.tx(owner), call))
+	}
 	return c.sh(callNameOf(c.x, call))
 }
 
@@ -138,6 +336,21 @@ func (c *FC) calls(name string) []*ssa.Call {
 			}
 		}
 	}
+	// the virtual body: calls made by new helpers on fn's behalf
+	seen := map[*ssa.Function]bool{}
+	for _, vs := range c.vsites {
+		if seen[vs.h] {
+			continue
+		}
+		seen[vs.h] = true
+		for _, b := range vs.h.Blocks {
+			for _, in := range b.Instrs {
+				if call, ok := in.(*ssa.Call); ok && c.callName(call) == name {
+					out = append(out, call)
+				}
+			}
+		}
+	}
 	return out
 }
 
@@ -152,9 +365,12 @@ func (c *FC) oneCall(rule, name string) *ssa.Call {
 	return cs[0]
 }
 
+// plainCallTerm: the call's own term (callee + argument terms) in fn's frame.
+func (c *FC) plainCallTerm(call *ssa.Call) *Term { return c.termAt(call, call) }
+
 // args returns the printed argument terms of a call (receiver excluded for k.* and invoke).
 func (c *FC) args(call *ssa.Call) []string {
-	t := c.x.Of(call, call)
+	t := c.plainCallTerm(call)
 	var out []string
 	as := t.A
 	if t.Op == "invoke" {
@@ -168,7 +384,7 @@ func (c *FC) args(call *ssa.Call) []string {
 
 // argTerm returns the (unabbreviated) term of argument i as printed (see args).
 func (c *FC) argTerms(call *ssa.Call) []*Term {
-	t := c.x.Of(call, call)
+	t := c.plainCallTerm(call)
 	if t.Op == "invoke" {
 		return t.A[1:]
 	}
@@ -322,6 +538,7 @@ func (c *FC) requireCut(rule, what string, guard []Atom, targets []ssa.Instructi
 		c.r.fail(rule, key, c.pos(), "no target instructions found for this guard (vacuous)")
 		return false
 	}
+	targets = c.anchors(targets)
 	res := cutQuery(c.fn, c.ifs, guard, targets)
 	return c.recordCut(rule, key, guard, res, len(targets))
 }
@@ -332,6 +549,7 @@ func (c *FC) requireCutFrom(rule, what string, start *ssa.BasicBlock, guard []At
 		c.r.fail(rule, key, c.pos(), "no target instructions found for this guard (vacuous)")
 		return false
 	}
+	targets = c.anchors(targets)
 	res := cutFromQuery(c.fn, c.ifs, start, guard, targets)
 	return c.recordCut(rule, key, guard, res, len(targets))
 }
@@ -405,6 +623,12 @@ func (c *FC) mustPass(rule, what string, via []ssa.Instruction, targets []ssa.In
 	key := fmt.Sprintf("%s/%s/%s", rule, c.name, what)
 	if len(via) == 0 {
 		c.r.fail(rule, key, c.pos(), "required call is absent")
+		return false
+	}
+	via = c.viaAnchors(via)
+	targets = c.anchors(targets)
+	if len(via) == 0 {
+		c.r.fail(rule, key, c.pos(), "required call sits in a helper that can return normally without making it")
 		return false
 	}
 	if len(targets) == 0 {
